@@ -306,6 +306,8 @@ class Check:
         self.findings = load_findings()
         self.outdir = os.path.join(VERIF, "out", "replay", pid)
         # tools/selftest.py: corrupt every recorded trace in one way and expect the check to report it
+        # programs exported from a model counterexample: tid -> clauses / invariant the model saw violated
+        self.expect_violation = {}
         self.selftest = os.environ.get("VERIF_SELFTEST", "")
         if self.selftest:
             self.outdir = os.path.join(self.scratch, "replay")
@@ -373,6 +375,17 @@ class Check:
                 bad.setdefault(v["tid"], []).append((v, mine))
         for tid, lst in bad.items():
             self._triage(progs.get(tid), lst, shards)
+        for tid, exp in self.expect_violation.items():
+            if tid in progs:
+                hit = [c for v, mine in bad.get(tid, []) for c in mine]
+                if exp and exp[0] in STATE_INVARIANT_NAMES:
+                    # a violated state invariant of the model has no clause name of its own in the trace: the model's
+                    # final state is compared with the real one (drift) and the relation is re-stated below
+                    self._state_invariant_cex(progs[tid], exp[0], [v for v in verdicts if v["tid"] == tid])
+                elif not hit:
+                    drift = [d for v in verdicts if v["tid"] == tid for d in v["drift"] if not d.startswith("L2+")]
+                    self.problems.append(f"model counterexample (program {tid}, clauses {exp}) is not reproduced by the library"
+                                         + (f": the model drifts from the code at {sorted(set(drift))}" if drift else ""))
         for p in programs[:sample]:
             if len(self.cov["samples"]) < 6:
                 self.cov["samples"].append({"program": _brief(p)})
@@ -457,6 +470,19 @@ class Check:
                            "failed": [{"clause": c, "seq": v["seq"], "op": v["op"]} for c, v in unknown]}, f)
             self.violations.append((sorted({c for c, _ in unknown}), path))
 
+    def _state_invariant_cex(self, prog, name, verdicts):
+        """The model violated a state invariant along this program.  If the real execution equals the model's (no
+        drift), the real library violates it too: reported with the program as replay."""
+        drift = sorted({d for v in verdicts for d in v["drift"] if not d.startswith("L2+")})
+        if drift or not verdicts:
+            self.problems.append(f"model counterexample to {name} (program {prog['tid']}) is not reproduced: drift {drift}")
+            return
+        os.makedirs(self.outdir, exist_ok=True)
+        path = os.path.join(self.outdir, f"prog_{prog['tid']}.json")
+        with open(path, "w") as f:
+            json.dump({"property": self.pid, "program": prog, "failed": [{"clause": f"{self.pid}.model.{name}", "seq": -1, "op": "state"}]}, f)
+        self.violations.append(([f"{self.pid}.model.{name}"], path))
+
     # -- wrap up ------------------------------------------------------------
     def _nonvacuity(self, shards):
         """coverage.result_nonzero[op] = [events whose first array result stores a non-zero element, events with an
@@ -535,6 +561,9 @@ class Check:
               f"{cov['traces_validated_against_impl']} traces / {cov['events_validated']} events validated, "
               f"{round(wall, 1)} s")
         return 0
+
+
+STATE_INVARIANT_NAMES = ("AllValid", "RouteIndependent", "ReshapeRoundTrip")
 
 
 def _brief(p):
